@@ -261,6 +261,43 @@ def run(ctx):
         ctx.obligation("generated files compile", False, r0.log[-1500:])
         ctx.violation("gen-compile", "generated Coq tables do not compile", {"log": r0.log[-3000:]}, found_input=False)
         return
+    # rule_exact_for_patch (needs the dumped quadrature rules): compiled in a thread, concurrently with the
+    # algebra files and the correspondence run
+    import threading
+    from translator import gauss as T_gauss
+    rule_res = {}
+
+    def chain_rule():
+        rcg, outg, errg = ctx.impl_python(os.path.join(common.VERIF, "corr", "impl_gauss.py"), timeout=300)
+        if rcg != 0:
+            rule_res["dump_error"] = errg[-1500:]
+            return
+        open(os.path.join(ctx.build, "Gen_Gauss.v"), "w").write(T_gauss.emit_coq(json.loads(outg)))
+        ctx.copy_props("C01/C01_rule.v", "C01/C01_rule_report.v")
+        g = ctx.coq(["Gen_Gauss.v"], timeout=300, count=False)
+        if not g.ok:
+            rule_res["dump_error"] = g.log[-1500:]
+            return
+        rule_res["rule"] = ctx.coq(["C01_rule.v"], timeout=600)
+        if rule_res["rule"].ok:
+            try:
+                from translator import hermite as T_herm
+                open(os.path.join(ctx.build, "Gen_Hermite.v"), "w").write(T_herm.emit_coq(T_herm.read_hermite(ctx.repo, E)))
+                ctx.copy_props("C01/C01_hermite.v")
+                gh = ctx.coq(["Gen_Hermite.v"], timeout=300, count=False)
+                rule_res["hermite"] = ctx.coq(["C01_hermite.v"], timeout=600) if gh.ok else gh
+            except (TranslateError, SyntaxError, OSError, KeyError) as ex:
+                rule_res["hermite_error"] = str(ex)
+        if rule_res["rule"].ok and ctx.tier == "thorough":
+            rule_res["report"] = ctx.coq(["C01_rule_report.v"], timeout=900, count=False)
+            if rule_res["report"].ok:
+                rule_res["printed"] = ctx.coq_eval("C01_rule_print.v", "From Coq Require Import String List.\nFrom EFP Require Import C01_rule_report.\nOpen Scope string_scope.\n"
+                                                   "Eval vm_compute in (\"outside_doc\", rule_report_outside_documented_order).\nEval vm_compute in (\"stiffness_not_exact\", rule_report_stiffness_not_exact).\n", timeout=300)[1]
+        elif not rule_res["rule"].ok:
+            rule_res["diag"] = ctx.coq_eval("C01_rule_diag.v", open(os.path.join(ctx.build, "C01_rule.v")).read().split("Lemma all_dN_rule_exact")[0]
+                                            + "\nEval vm_compute in map (fun e => (ename e, dN_rule_exact e)) all_elems.\n", timeout=600)[1]
+    th_rule = threading.Thread(target=chain_rule)
+    th_rule.start()
     r1 = ctx.coq(["C01_tables.v"], timeout=300)
     r2 = ctx.coq(["C01_patch.v"], timeout=300)
     if not r1.ok:
@@ -353,6 +390,25 @@ def run(ctx):
         if bad:
             ctx.violation("patch:" + tag, "%s (%d nodes, %d interior): linear field not reproduced — %s (relative, tolerance 1e-9)" % (
                 tag, r["Nn"], r["n_interior"], "; ".join("%s %.3e" % x for x in bad)), rep, True)
+    th_rule.join()
+    if "dump_error" in rule_res:
+        ctx.obligation("C01_rule.v inputs", False, rule_res["dump_error"])
+        ctx.violation("rule-dump", "cannot obtain / compile the quadrature tables needed by C01_rule.v", {"log": rule_res["dump_error"]}, found_input=False)
+    elif not rule_res["rule"].ok:
+        txt = re.sub(r"\s+", " ", rule_res.get("diag", ""))
+        bad = re.findall(r'\("([A-Z0-9]+)", false\)', txt)
+        ctx.violation("rule-inexact:" + ",".join(bad) if bad else "proof-broken:C01_rule.v",
+                      "C01_rule.v no longer checks: the rule selected for stiffness integrals does not integrate every monomial of the _dN table exactly%s — on affine meshes the quadrature of int dN differs from the exact integral and the patch test cannot hold to round-off" % (
+                          " for " + ", ".join(bad) if bad else ""), {"obligation": "C01_rule.v", "elements": bad, "log": rule_res["rule"].log[-2000:]}, found_input=False)
+    if "hermite_error" in rule_res:
+        ctx.violation("translate-hermite", "translator rejected the Hermite tables: " + rule_res["hermite_error"], {"construct": rule_res["hermite_error"]}, found_input=False)
+    elif "hermite" in rule_res and not rule_res["hermite"].ok:
+        ctx.violation("proof-broken:C01_hermite.v", "C01_hermite.v no longer checks: the Hermitian tables do not reproduce every polynomial deflection of degree <= 2n-1 (or its curvature) within 1e-12 — a constant-curvature / cubic beam field is not in the discrete space: " + ((rule_res["hermite"].log.strip().splitlines() or ["?"])[-1][:200]),
+                      {"obligation": "C01_hermite.v", "log": rule_res["hermite"].log[-2500:]}, found_input=False)
+    if "printed" in rule_res:
+        t = re.sub(r"\s+", " ", rule_res["printed"])
+        ctx.cov["rule_report"] = {"dN_monomials_outside_the_documented_order_of_the_rigi_rule": re.findall(r'"([A-Z0-9]+)"', t.split("stiffness_not_exact")[0].split("outside_doc")[-1]),
+                                  "stiffness_integrand_not_exact_on_affine_elements": re.findall(r'"([A-Z0-9]+)"', t.split('"stiffness_not_exact"')[-1])}
     ctx.cov["case_kinds"] = dist
     ctx.cov["unknowns_of_large_cases"] = sizes
     ctx.cov["in_place_moves_checked"] = nmoves
